@@ -43,17 +43,20 @@ impl<'a> VerifiableEncryptionBuilder<'a> {
     pub fn commit(
         statement: &'a VerifiableEncryptionStatement<G1Projective>,
         message: Scalar,
-        b: Scalar,
+        message_blinder: Scalar,
         mut rng: impl RngCore + CryptoRng,
         transcript: &mut Transcript,
     ) -> CredxResult<Self> {
+        // `message_blinder` is the Schnorr nonce of the message in the signature proof (its
+        // response is published); the encryption randomness must be independent of it.
+        let b = Scalar::random(&mut rng);
         let r = Scalar::random(&mut rng);
 
         let c1 = G1Projective::GENERATOR * b;
         let c2 = statement.message_generator * message + statement.encryption_key.0 * b;
 
         let r1 = G1Projective::GENERATOR * r;
-        let r2 = statement.message_generator * b + statement.encryption_key.0 * r;
+        let r2 = statement.message_generator * message_blinder + statement.encryption_key.0 * r;
 
         transcript.append_message(b"", statement.id.as_bytes());
         transcript.append_message(b"c1", c1.to_compressed().as_slice());
